@@ -113,6 +113,9 @@ func (c *c12) l1Matrix(env *L1Env, past map[string][]string, log []string) {
 			{"MsgDeleteOutput", ophosttypes.NewMsgDeleteOutput(x, 1, delIdx), isGov(x) || isP(x) || isC(x)},
 			{"MsgUpdateProposer", ophosttypes.NewMsgUpdateProposer(x, 1, fresh), isGov(x) || isP(x)},
 			{"MsgUpdateChallenger", ophosttypes.NewMsgUpdateChallenger(x, 1, fresh), isGov(x) || isC(x)},
+			// the signer names itself as the successor (a check made against the proposed instead of the stored holder)
+			{"MsgUpdateProposer(self)", ophosttypes.NewMsgUpdateProposer(x, 1, x), isGov(x) || isP(x)},
+			{"MsgUpdateChallenger(self)", ophosttypes.NewMsgUpdateChallenger(x, 1, x), isGov(x) || isC(x)},
 			{"MsgUpdateBatchInfo", ophosttypes.NewMsgUpdateBatchInfo(x, 1, ophosttypes.BatchInfo{Submitter: fresh, ChainType: ophosttypes.BatchInfo_CHAIN_TYPE_CELESTIA}), isGov(x) || isP(x)},
 			{"MsgUpdateMetadata", ophosttypes.NewMsgUpdateMetadata(x, 1, []byte("meta")), isGov(x) || isP(x)},
 			{"MsgUpdateOracleConfig", ophosttypes.NewMsgUpdateOracleConfig(x, 1, true), isGov(x) || isP(x)},
@@ -320,6 +323,17 @@ func (c *c12) executeMessages(o *OracleEnv, admin string, log []string) {
 		wantOK bool
 		check  func(br *OracleEnv) (bool, string)
 	}
+	senders := map[string]string{} // case name -> sender of the batch, if not the admin
+	stranger := sim.NewAccount("c12-batch-stranger").String()
+	selfAppoint := func(who string) sdk.Msg {
+		p, _ := l2.K.GetParams(l2.Ctx)
+		p.Admin = who
+		return opchildtypes.NewMsgUpdateParams(l2.Authority, &p)
+	}
+	adminIs := func(br *OracleEnv, who string) bool {
+		p, _ := br.L2.K.GetParams(br.L2.Ctx)
+		return p.Admin == who
+	}
 	hasVal := func(br *OracleEnv, v ValKey) bool {
 		_, err := br.L2.Q.Validator(br.L2.Ctx, &opchildtypes.QueryValidatorRequest{ValidatorAddr: v.Operator.Val()})
 		return err == nil
@@ -340,6 +354,15 @@ func (c *c12) executeMessages(o *OracleEnv, admin string, log []string) {
 		{"authority-signed, user bank send, authority-signed", []sdk.Msg{add(l2.Authority, v1), banktypes.NewMsgSend(o.Users[0].Addr, sdk.MustAccAddressFromBech32(admin), sdk.NewCoins(sdk.NewCoin("ufee", math.NewInt(1)))), add(l2.Authority, v2)}, false, nil},
 		{"authority-signed, then withdrawal of a user's tokens", []sdk.Msg{add(l2.Authority, v1), opchildtypes.NewMsgInitiateTokenWithdrawal(o.Users[0].String(), "l1recipient", sdk.NewCoin(o.L2Denom("uinit"), math.NewInt(1)))}, false, nil},
 		{"user bank send first, then authority-signed", []sdk.Msg{banktypes.NewMsgSend(o.Users[0].Addr, sdk.MustAccAddressFromBech32(admin), sdk.NewCoins(sdk.NewCoin("ufee", math.NewInt(1)))), add(l2.Authority, v1)}, false, nil},
+		{"batch by a stranger whose inner message makes that stranger the admin", []sdk.Msg{selfAppoint(stranger)}, false, func(br *OracleEnv) (bool, string) {
+			return adminIs(br, admin), "the admin must not change"
+		}},
+		{"batch by a stranger: valid inner message first, self-appointment last", []sdk.Msg{add(l2.Authority, v1), selfAppoint(stranger)}, false, func(br *OracleEnv) (bool, string) {
+			return adminIs(br, admin) && !hasVal(br, v1), "nothing of the batch may survive"
+		}},
+		{"batch by the admin handing the admin role to somebody else", []sdk.Msg{selfAppoint(stranger)}, true, func(br *OracleEnv) (bool, string) {
+			return adminIs(br, stranger), "the admin role must have moved"
+		}},
 		{"inner bank send from the module account", []sdk.Msg{banktypes.NewMsgSend(modAcc, o.Users[0].Addr, sdk.NewCoins(sdk.NewCoin("ufee", math.NewInt(1))))}, true, nil},
 		{"nested execute-messages signed by admin inside", []sdk.Msg{func() sdk.Msg {
 			m, _ := opchildtypes.NewMsgExecuteMessages(admin, []sdk.Msg{add(l2.Authority, v1)})
@@ -348,7 +371,12 @@ func (c *c12) executeMessages(o *OracleEnv, admin string, log []string) {
 		{"inner set-bridge-info by authority (not an executor)", []sdk.Msg{opchildtypes.NewMsgSetBridgeInfo(l2.Authority, o.BridgeInfo(o.ClientID, true))}, false, nil},
 	}
 	for _, t := range cases {
-		msg, err := opchildtypes.NewMsgExecuteMessages(admin, t.inner)
+		sender := admin
+		if strings.HasPrefix(t.name, "batch by a stranger") {
+			sender = stranger
+		}
+		_ = senders
+		msg, err := opchildtypes.NewMsgExecuteMessages(sender, t.inner)
 		if err != nil {
 			panic(err)
 		}
@@ -566,7 +594,7 @@ func checkC12(run *mon.Run, rng *mon.Rand, thorough bool) {
 	for _, c := range []string{"C12.declared_signer_is_role_field", "C12.role_holder_accepted", "C12.non_holder_rejected", "C12.execute_messages_all_or_nothing", "C12.binding_fixed", "C12.binding_refresh_allowed"} {
 		run.Declare(c, 4)
 	}
-	for _, m := range []string{"L1.MsgProposeOutput", "L1.MsgDeleteOutput", "L1.MsgUpdateProposer", "L1.MsgUpdateChallenger", "L1.MsgUpdateBatchInfo", "L1.MsgUpdateMetadata", "L1.MsgUpdateOracleConfig", "L1.MsgUpdateParams",
+	for _, m := range []string{"L1.MsgProposeOutput", "L1.MsgDeleteOutput", "L1.MsgUpdateProposer", "L1.MsgUpdateChallenger", "L1.MsgUpdateProposer(self)", "L1.MsgUpdateChallenger(self)", "L1.MsgUpdateBatchInfo", "L1.MsgUpdateMetadata", "L1.MsgUpdateOracleConfig", "L1.MsgUpdateParams",
 		"L2.MsgFinalizeTokenDeposit", "L2.MsgFinalizeTokenDeposit(stale)", "L2.MsgSetBridgeInfo", "L2.MsgUpdateOracle", "L2.MsgAddValidator", "L2.MsgRemoveValidator", "L2.MsgUpdateParams", "L2.MsgSpendFeePool", "L2.MsgExecuteMessages"} {
 		run.Declare("C12.cell_allowed."+m, 5) // every message type must be seen succeeding for a legitimate holder
 	}
